@@ -463,3 +463,185 @@ Proof.
       destruct (nth_error (b0 :: rest) 2); [|discriminate].
       destruct (Z.land (Z.shiftr z 7) 1 =? 1); discriminate.
 Qed.
+
+(* ---------- the FLV cache ---------- *)
+
+(* seen through [ftag_pkt], FlvCache is the packet cache of Model/Cache.v *)
+Definition abs_fc (c : fcache) : rcache :=
+  {| rc_gopon := fc_gopon c;
+     rc_vps := option_map ftag_pkt (fc_meta c); rc_sps := option_map ftag_pkt (fc_vsh c);
+     rc_pps := option_map ftag_pkt (fc_ash c); rc_gop := map ftag_pkt (fc_gop c) |}.
+
+Lemma abs_fc_add : forall c t, t_kind t <> 0 -> abs_fc (fc_add c t) = rc_add (abs_fc c) (ftag_pkt t).
+Proof.
+  intros c t H0. unfold fc_add.
+  destruct (Z.eqb_spec (t_kind t) 5) as [K5|K5].
+  { unfold rc_add. cbn [ftag_pkt p_kind]. rewrite K5. reflexivity. }
+  destruct (Z.eqb_spec (t_kind t) 3) as [K3|K3].
+  { unfold rc_add. cbn [ftag_pkt p_kind]. rewrite K3. reflexivity. }
+  destruct (Z.eqb_spec (t_kind t) 4) as [K4|K4].
+  { unfold rc_add. cbn [ftag_pkt p_kind]. rewrite K4. reflexivity. }
+  rewrite rc_add_other by (cbn; assumption).
+  unfold rc_add_media, p_key. cbn [abs_fc rc_gopon ftag_pkt p_kind rc_gop].
+  destruct (fc_gopon c) eqn:G; [|reflexivity].
+  destruct (t_kind t =? 2).
+  - unfold abs_fc. cbn. reflexivity.
+  - destruct (fc_gop c) as [|g gs] eqn:Q; cbn [map].
+    + unfold abs_fc. rewrite G, Q. reflexivity.
+    + unfold abs_fc. cbn. rewrite map_app. reflexivity.
+Qed.
+
+Lemma abs_fc_fold : forall tags c,
+  (forall t, In t tags -> t_kind t <> 0) ->
+  abs_fc (fold_left fc_add tags c) = fold_left rc_add (map ftag_pkt tags) (abs_fc c).
+Proof.
+  induction tags as [|t tags IH]; intros c H; [reflexivity|].
+  cbn [fold_left map]. rewrite IH by (intros t' Ht'; apply H; right; exact Ht').
+  rewrite abs_fc_add by (apply H; left; reflexivity). reflexivity.
+Qed.
+
+Lemma fc_add_gopon : forall c t, fc_gopon (fc_add c t) = fc_gopon c.
+Proof.
+  intros c t. unfold fc_add.
+  destruct (t_kind t =? 5); [reflexivity|]. destruct (t_kind t =? 3); [reflexivity|].
+  destruct (t_kind t =? 4); [reflexivity|]. destruct (fc_gopon c) eqn:G; [|exact G].
+  destruct (t_kind t =? 2); [reflexivity|]. destruct (fc_gop c); [exact G|reflexivity].
+Qed.
+
+Lemma fc_add_gop_off : forall c t, fc_gopon c = false -> fc_gop (fc_add c t) = fc_gop c.
+Proof.
+  intros c t G. unfold fc_add.
+  destruct (t_kind t =? 5); [reflexivity|]. destruct (t_kind t =? 3); [reflexivity|].
+  destruct (t_kind t =? 4); [reflexivity|]. rewrite G. reflexivity.
+Qed.
+
+Lemma fc_fold_off : forall tags c,
+  fc_gopon c = false -> fc_gop c = [] -> fc_gop (fold_left fc_add tags c) = [].
+Proof.
+  induction tags as [|t tags IH]; intros c G Q; [exact Q|].
+  cbn [fold_left]. apply IH; [rewrite fc_add_gopon; exact G|rewrite fc_add_gop_off; assumption].
+Qed.
+
+Lemma fc_fold_gopon : forall tags c, fc_gopon (fold_left fc_add tags c) = fc_gopon c.
+Proof.
+  induction tags as [|t tags IH]; intros c; [reflexivity|]. cbn [fold_left]. rewrite IH. apply fc_add_gopon.
+Qed.
+
+(* everything in the cache is one of the tags it was given *)
+Lemma fc_fold_incl : forall tags c t,
+  let c' := fold_left fc_add tags c in
+  In t (opt_list (fc_meta c') ++ opt_list (fc_vsh c') ++ opt_list (fc_ash c') ++ fc_gop c') ->
+  In t tags \/ In t (opt_list (fc_meta c) ++ opt_list (fc_vsh c) ++ opt_list (fc_ash c) ++ fc_gop c).
+Proof.
+  induction tags as [|a tags IH]; intros c t; cbn zeta; [auto|].
+  cbn [fold_left]. intros H. apply IH in H. destruct H as [H|H]; [left; right; exact H|].
+  revert H. unfold fc_add.
+  destruct (t_kind a =? 5).
+  { cbn. intros [<-|H]; [left; left; reflexivity|]. right. apply in_or_app. right. exact H. }
+  destruct (t_kind a =? 3).
+  { cbn [fc_meta fc_vsh fc_ash fc_gop]. intros H. apply in_app_or in H. destruct H as [H|H].
+    - right. apply in_or_app. left; exact H.
+    - cbn in H. destruct H as [<-|H]; [left; left; reflexivity|].
+      right. apply in_or_app. right. apply in_or_app. right. exact H. }
+  destruct (t_kind a =? 4).
+  { cbn [fc_meta fc_vsh fc_ash fc_gop]. intros H. apply in_app_or in H. destruct H as [H|H].
+    - right. apply in_or_app. left; exact H.
+    - apply in_app_or in H. destruct H as [H|H].
+      + right. apply in_or_app. right. apply in_or_app. left; exact H.
+      + cbn in H. destruct H as [<-|H]; [left; left; reflexivity|].
+        right. apply in_or_app. right. apply in_or_app. right. apply in_or_app. right. exact H. }
+  destruct (fc_gopon c); [|auto].
+  destruct (t_kind a =? 2).
+  { cbn [fc_meta fc_vsh fc_ash fc_gop]. intros H.
+    rewrite !app_assoc in H. apply in_app_or in H. destruct H as [H|H].
+    - right. rewrite !app_assoc. apply in_or_app. left; exact H.
+    - destruct H as [<-|[]]. left; left; reflexivity. }
+  destruct (fc_gop c) eqn:Q; [rewrite Q; auto|].
+  cbn [fc_meta fc_vsh fc_ash fc_gop]. intros H.
+  rewrite !app_assoc in H. apply in_app_or in H. destruct H as [H|H].
+  - right. rewrite <- !app_assoc in H. exact H.
+  - destruct H as [<-|[]]. left; left; reflexivity.
+Qed.
+
+Lemma ftag_pkt_restamp : forall ts l, map ftag_pkt (map (restamp ts) l) = map ftag_pkt l.
+Proof. intros ts l. rewrite map_map. apply map_ext. intros t. reflexivity. Qed.
+
+Lemma opt_list_map : forall A B (f : A -> B) o, map f (opt_list o) = opt_list (option_map f o).
+Proof. intros A B f [a|]; reflexivity. Qed.
+
+(* FLV JOIN: what PushTo writes after any tag list.  The (up to three) header tags are COPIES
+   stamped with the timestamp of the first replayed media tag (0 when the GOP is empty); the GOP
+   tags and the cache itself are left as they were; and which headers / which GOP is decided by
+   the specification of Part A: the latest metadata / video header / audio header tag and the tags
+   from the last key frame on. *)
+Theorem flv_join_timestamps : forall gopon tags,
+  (forall t, In t tags -> t_kind t <> 0) ->
+  let c := fold_left fc_add tags (fc_empty gopon) in
+  let hdrs := opt_list (fc_meta c) ++ opt_list (fc_vsh c) ++ opt_list (fc_ash c) in
+  let ts0 := match fc_gop c with [] => 0 | t :: _ => t_ts t end in
+  fst (fc_push c) = c /\
+  snd (fc_push c) = map (restamp ts0) hdrs ++ fc_gop c /\
+  (forall t, In t (map (restamp ts0) hdrs) -> t_ts t = ts0) /\
+  (forall t, In t hdrs \/ In t (fc_gop c) -> In t tags) /\
+  map ftag_pkt (snd (fc_push c)) = spec_snap gopon (map ftag_pkt tags).
+Proof.
+  intros gopon tags Hk c hdrs ts0.
+  split; [reflexivity|]. split; [reflexivity|]. split; [|split].
+  - intros t H. apply in_map_iff in H. destruct H as (t' & <- & _). reflexivity.
+  - intros t H.
+    destruct (fc_fold_incl tags (fc_empty gopon) t) as [G|G]; [|exact G|destruct G].
+    fold c. unfold hdrs in H. destruct H as [H|H].
+    + rewrite !app_assoc. apply in_or_app. left. rewrite <- app_assoc. exact H.
+    + apply in_or_app. right. apply in_or_app. right. apply in_or_app. right. exact H.
+  - cbn [fc_push snd]. fold ts0. fold hdrs. rewrite map_app, ftag_pkt_restamp.
+    rewrite <- cache_is_spec.
+    pose proof (abs_fc_fold tags (fc_empty gopon) Hk) as E. fold c in E.
+    change (abs_fc (fc_empty gopon)) with (rc_empty gopon) in E. rewrite <- E.
+    unfold rc_snap, abs_fc. cbn [rc_vps rc_sps rc_pps rc_gop rc_gopon].
+    unfold hdrs. rewrite !map_app, !opt_list_map, <- !app_assoc.
+    do 3 f_equal.
+    destruct (fc_gopon c) eqn:G; [reflexivity|].
+    unfold c. rewrite fc_fold_off; [reflexivity| |reflexivity].
+    unfold c in G. rewrite fc_fold_gopon in G. exact G.
+Qed.
+
+(* ---------- the oracles accept the model ---------- *)
+
+Lemma zlist_eqb_refl : forall l, zlist_eqb l l = true.
+Proof. induction l as [|x l IH]; [reflexivity|]. cbn. rewrite Z.eqb_refl, IH. reflexivity. Qed.
+
+Theorem classify_model_passes : forall c gopon pkts,
+  cc_ok c gopon pkts (cc_kinds c pkts) (cc_pushed gopon (cc_kinds c pkts)) = true.
+Proof.
+  intros c gopon pkts. unfold cc_ok, cc_pushed. rewrite cache_is_spec, !zlist_eqb_refl. reflexivity.
+Qed.
+
+Lemma flv_classify_nonzero : forall ty d, flv_classify ty d <> 0.
+Proof.
+  intros ty d. unfold flv_classify.
+  destruct (flv_is_metadata ty d); [discriminate|]. destruct (flv_is_vsh ty d); [discriminate|].
+  destruct (flv_is_ash ty d); [discriminate|]. destruct (flv_is_key ty d); discriminate.
+Qed.
+
+Lemma ftags_from_kind : forall kinds tss i t, In t (ftags_from i kinds tss) -> In (t_kind t) kinds.
+Proof.
+  induction kinds as [|k kinds IH]; intros tss i t H; [destruct H|].
+  destruct tss as [|ts tss]; [destruct H|]. cbn [ftags_from] in H. destruct H as [<-|H].
+  - left; reflexivity.
+  - right. eapply IH; eauto.
+Qed.
+
+Theorem flv_model_passes : forall gopon tags,
+  let kinds := flv_kinds tags in let tss := flv_tss tags in
+  flv_ok gopon tags kinds (map (fun t => (t_id t, t_ts t)) (flv_pushed gopon kinds tss)) tss = true.
+Proof.
+  intros gopon tags kinds tss. unfold flv_ok. fold kinds tss.
+  rewrite !zlist_eqb_refl. cbn [andb].
+  rewrite !map_map. cbn [fst snd].
+  assert (Hk : forall t, In t (ftags_from 0 kinds tss) -> t_kind t <> 0).
+  { intros t H. apply ftags_from_kind in H. unfold kinds, flv_kinds in H.
+    apply in_map_iff in H. destruct H as (x & <- & _). apply flv_classify_nonzero. }
+  destruct (flv_join_timestamps gopon (ftags_from 0 kinds tss) Hk) as (_ & _ & _ & _ & E).
+  unfold flv_pushed. rewrite <- E, map_map. cbn [ftag_pkt p_id].
+  rewrite !zlist_eqb_refl. reflexivity.
+Qed.
